@@ -120,6 +120,12 @@ func GenerateMatrix(r *lp.Rng, index int) *Design {
 			resp.Cookies = append(resp.Cookies, Mapped{Attr: name, Wire: "RC-" + name})
 		}
 	}
+	if rloc == "body" {
+		// collections with default values in the response body
+		res.Type.Object = append(res.Type.Object,
+			&Field{Name: "r_tags", Att: &Att{Type: &Type{Array: &Att{Type: &Type{Prim: "String"}}}, Default: []any{"a", "b"}, HasDef: true}},
+			&Field{Name: "r_labels", Att: &Att{Type: &Type{MapKey: &Att{Type: &Type{Prim: "String"}}, MapElem: &Att{Type: &Type{Prim: "String"}}}, Default: map[string]any{"x": "1"}, HasDef: true}})
+	}
 	get.Result = res
 	if len(resp.Headers) > 0 || len(resp.Cookies) > 0 {
 		get.HTTP.Responses = append(get.HTTP.Responses, resp)
